@@ -308,6 +308,50 @@ def access_sites(mod, fn):
                     yield ins, ('memdst' if k == 0 else 'memsrc'), ins.args[k], a, name.split('.')[1]
 
 
+def alignment_guarded(mod, fn, pf, ins, ptr_tv, need):
+    """Is the access `ins` (needing `need`-byte alignment) dominated by the passing edge of a run-time test
+    ((uintptr_t)q & (A-1)) == 0 / (uintptr_t)q % A == 0 with A >= need, on a pointer q of the same provenance?
+    Such an access never executes misaligned, so it does not assume placement."""
+    from .taint import FnInfo
+    info = FnInfo(mod, fn)
+    want = pf.val_origin(ptr_tv)
+    if not want:
+        return False
+    for g in fn.order:
+        term = fn.blocks[g][-1] if fn.blocks[g] else None
+        if term is None or term.op != 'br' or len(term.x['targets']) != 2 or term.args[0][1][0] != 'r':
+            continue
+        c = info.defs.get(term.args[0][1][1])
+        if c is None or c.op != 'icmp' or c.x['pred'] not in ('eq', 'ne'):
+            continue
+        (t1, a), (t2, b) = c.args
+        if b != ('c', 0) or a[0] != 'r':
+            continue
+        m = info.defs.get(a[1])
+        if m is None or m.op not in ('and', 'urem'):
+            continue
+        (tm1, x), (tm2, k) = m.args
+        if k[0] != 'c' or x[0] != 'r':
+            continue
+        A = k[1] + 1 if m.op == 'and' else k[1]
+        if A < need or (m.op == 'and' and (k[1] & (k[1] + 1)) != 0):
+            continue
+        pi = info.defs.get(x[1])
+        # look through integer casts
+        while pi is not None and pi.op in ('zext', 'trunc', 'sext') and pi.args[0][1][0] == 'r':
+            pi = info.defs.get(pi.args[0][1][1])
+        if pi is None or pi.op != 'ptrtoint':
+            continue
+        go = pf.val_origin(pi.args[0])
+        if not go or set(go) != set(want):
+            continue
+        ok_edge = term.x['targets'][0] if c.x['pred'] == 'eq' else term.x['targets'][1]
+        bad_edge = term.x['targets'][1] if c.x['pred'] == 'eq' else term.x['targets'][0]
+        if ok_edge != bad_edge and info.dominates(ok_edge, ins.bb) and len(info.pred.get(ok_edge, [])) == 1:
+            return True
+    return False
+
+
 def escape_sites(mod, fn, pf):
     """Places where a pointer leaves the function's view under a declared type that promises more alignment than
     its provenance guarantees: call arguments, pointers stored to non-local memory, returned pointers.
